@@ -45,7 +45,7 @@ def default_outcome(w):
 EFFORT_AFTER_VIOLATION = 400000     # executed steps (new + replayed) per scenario
 
 def explore(scenario, monitor_factory, bound=None, max_states=200000, max_depth=400, wall=None,
-            outcome=default_outcome, stop_on_first=False, on_complete=None, prefix=None, preamble=None, only=None):
+            outcome=default_outcome, stop_on_first=False, on_complete=None, prefix=None, preamble=None, only=None, listed=None):
     """
     bound=None: closed exploration (all interleavings).  bound=k: at most k deviations from the canonical schedule.
     monitor_factory() -> list of fresh monitors.  Returns Result.
@@ -64,8 +64,8 @@ def explore(scenario, monitor_factory, bound=None, max_states=200000, max_depth=
         if res.states >= max_states:
             res.caps.append("states")
             break
-        if res.violations and res.transitions + res.replayed_steps > EFFORT_AFTER_VIOLATION:
-            # a scenario that has already produced a counter-example is not explored to the bitter end once it turns out to be
+        if res.transitions + res.replayed_steps > EFFORT_AFTER_VIOLATION and any(not (listed and listed(v)) for v, _t, _p in res.violations):
+            # a scenario that has already produced a counter-example (other than a recorded known finding) is not explored to the bitter end once it turns out to be
             # huge (a defect that multiplies events multiplies states): reported as a cap, the counter-examples found stand
             res.caps.append("effort-after-violation")
             break
